@@ -39,6 +39,67 @@ def make_engine(run, **kw):
     return E
 
 
+def no_narrower_intermediate(run):
+    """Half-step clause, floating-point side condition decidable structurally: on the way from the source tensor to the codes and back,
+    no value is passed through a float type with fewer significant bits or a smaller exponent range than the source dtype (such an
+    intermediate overflows / rounds although every quantity is representable in the working dtype).  bfloat16 and float16 sources."""
+    from props.C07 import occurrences
+    for bits, qname in ((2, "qint2"), (4, "qint4")):
+        for dtype in ("bfloat16", "float16"):
+            inst = {"bits": bits, "dtype": dtype, "lemma": "no narrower intermediate"}
+            run.count_instance(**inst)
+            E = make_engine(run)
+            E.alg.track_narrowing = True
+            qt = E.load_module(QTYPE).env.lookup(qname)
+            prog = E.snippet(DRIVER, QW)
+            ds, dpos = lib.dims("d", 2)
+
+            def setup(E2, ds=ds, dpos=dpos, qt=qt, dtype=dtype):
+                for c in dpos:
+                    E2.assume(c)
+                return [new_input(E2, "X", dtype, ds), qt, 0, None], {}
+
+            try:
+                res = E.explore(prog, setup, name="C02.narrow")
+            except Unsupported as u:
+                run.undecide(f"C02/no-narrower-intermediate[{qname}/{dtype}]", u, inst)
+                continue
+            run.absorb(E)
+            tag = f"{qname}/{dtype}"
+            if not run.expect_paths(res, f"C02/no-narrower-intermediate[{tag}]", inst):
+                continue
+            for pi, r in enumerate(res):
+                if r.outcome != "return":
+                    continue
+                E.focus(r)
+                q, d = r.value
+                ids, inb = idx_vars("i", ds)
+                E.ps["touched"] = []
+                E.drain()
+                term = d.elem(ids)
+                eb0, sb0 = __import__("qvc.sym", fromlist=["FLOAT_DTYPES"]).FLOAT_DTYPES[dtype]
+                narrower = [t_ for t_ in ("float16", "bfloat16") if t_ != dtype and occurrences(term, f"narrow_{t_}")]
+                run.add(f"C02/no-intermediate-narrower-than-the-source-dtype[{tag}]/path{pi}", r.hyps, z3.BoolVal(not narrower), "property", inst, {"passed_through": narrower},
+                        replay=lambda m, sd, b=bits, dt=dtype: replay_wide_range(m, sd, b, dt))
+
+
+def replay_wide_range(model, seed, bits, dtype):
+    """Rows of magnitude far above 65504 (bfloat16) or needing more than 8 significant bits (float16): half-step bound."""
+    import torch
+    dt = {"bfloat16": torch.bfloat16, "float16": torch.float16}[dtype]
+    qname = "qint2" if bits == 2 else "qint4"
+    torch.manual_seed(seed)
+    mags = (1e5, 3e6, 1.0) if dt == torch.bfloat16 else (1.0, 100.0)
+    for mag in mags:
+        t = (torch.randn(4, 8) * mag).to(dt)
+        r = native_half_step(t, qname, 0, None)
+        if r:
+            r.update({"magnitude": mag, "dtype": dtype, "qtype": qname})
+            return r
+    return None
+
+
+
 def main_lemma(run):
     for bits, qname in ((2, "qint2"), (4, "qint4")):
         N = (1 << bits) - 1
@@ -315,7 +376,7 @@ def build(run):
                 f"{QBITS}::QBitsDequantizer.forward", f"{QBITS}::QBitsTensor.create", f"{QBITS}::QBitsTensor.__init__", f"{QBITS}::QBitsTensor.__new__",
                 CG.KEY_GROUP, CG.KEY_UNGROUP):
         run.under_contract(E0, key)
-    for part in (lambda r: CG.verify(r, lambda: r.engine(), "C02/group-contract", level_inv="property", replay_for=replay_group), math_lemmas, main_lemma, idempotence_F, zeropoint_F):
+    for part in (lambda r: CG.verify(r, lambda: r.engine(), "C02/group-contract", level_inv="property", replay_for=replay_group), math_lemmas, main_lemma, no_narrower_intermediate, idempotence_F, zeropoint_F):
         try:
             part(run)
         except Unsupported as u:
